@@ -77,7 +77,8 @@ def decode_rows(raw, enc, delim):
     return True, [ln.split(delim) for ln in lines]
 
 
-def nodetype_for(nodes):
+def nodetype_for(nodes, variant=0):
+    """int for integer universes; None or str (alternating with `variant`) for string universes."""
     if all(type(n) is int for n in nodes):
         return int
-    return None
+    return str if variant % 2 else None
